@@ -142,7 +142,14 @@ impl Bench {
         let mut spec = t.requests[i].clone();
         self.next_id += 1;
         spec.mid = (self.next_id as u16).wrapping_mul(257).wrapping_add(3);
-        spec.token = (0xA000_0000u32 | self.next_id).to_be_bytes().to_vec();
+        // fresh token per request, and of a length that changes from request to request within a
+        // transfer (0..8 bytes; the same length in the solo and in the interleaved run)
+        let tkl = ((key_seed(t) % 9) as usize + i * 5) % 9;
+        let id = 0xA000_0000u32 | self.next_id;
+        let mut tok = id.to_be_bytes().to_vec();
+        tok.extend_from_slice(&(!id).to_be_bytes());
+        tok.truncate(tkl);
+        spec.token = tok;
         let packet = Packet::from_bytes(&spec.bytes()).expect("request decodes");
         let mut req = CoapRequest::from_packet(packet, CEp::new(t.ep));
         let handler = &mut self.server.handler;
